@@ -1,11 +1,11 @@
 package main
 
 import (
-	"crypto/elliptic"
 	"bytes"
 	"context"
 	"crypto"
 	"crypto/ecdsa"
+	"crypto/elliptic"
 	"crypto/rsa"
 	"crypto/x509"
 	"fmt"
